@@ -231,6 +231,13 @@ func (tb *TB) system(in ssa.Instruction) *dsys {
 					s.le("0", sym, 1)
 					ls, lc, _ := tb.lenSym(c.Call.Args[0])
 					s.le(sym, ls, lc-1)
+				case "strings.ToLower", "strings.ToUpper", "bytes.ToLower", "bytes.ToUpper":
+					// case mapping preserves the length only on ASCII input
+					if tb.p.asciiGuard(fn, c.Call.Args[0], c) != nil {
+						ls, lc, _ := tb.lenSym(c.Call.Args[0])
+						s.le("len("+sym+")", ls, lc)
+						s.le(ls, "len("+sym+")", -lc)
+					}
 				case "strings.Split":
 					// at least one element
 					s.le("0", "len("+sym+")", -1)
